@@ -344,6 +344,7 @@ func (t *trzszTransfer) setLastChunkTime(chunkTime time.Duration) {
 
 func (t *trzszTransfer) cleanInput(timeoutDuration time.Duration) {
 	t.stopped.Store(true)
+	t.buffer.stopBuffer() // wake a pipeline stage still waiting for input: without a timeout nothing else would
 	t.buffer.drainBuffer()
 	t.lastInputTime.Store(time.Now().UnixMilli())
 	for {
